@@ -112,7 +112,10 @@ def unit_layout(tier):
                      site='_getnumadr:adr', decode=dec, replay=rp)
             before = sum([w64(counts[f]) for f in order[:order.index(field)]], z3.BitVecVal(0, 64))
             ck.prove('layout %s: map segment starts at %d * (objects of the lists CopyNames writes earlier)' % (tname, mult), pc, w64(got_map) == mult * before, site='_getnumadr:mapadr', decode=dec, replay=rp)
-            ck.prove('layout %s: map segment inside [0, nnames_map)' % tname, pc, z3.And(w64(got_map) >= 0, w64(got_map) + mult * w64(counts[field]) <= w64(nm)), site='_getnumadr:segment', decode=dec, replay=rp)
+            after = sum([w64(counts[f]) for f in order[order.index(field):]], z3.BitVecVal(0, 64))
+            # (implied by the two obligations above given nnames_map = mult * sum of all counts; stated on the suffix sum so that it stays linear for the solver)
+            ck.prove('layout %s: map segment inside [0, nnames_map)' % tname, pc, z3.And(w64(got_map) >= 0, w64(got_map) == w64(nm) - mult * after, mult * w64(counts[field]) <= mult * after),
+                     site='_getnumadr:segment', decode=dec, replay=rp)
         ck.reach('layout precondition %s' % tname, pre)
         ck.memory_obligations(res)
     return ck
@@ -213,7 +216,7 @@ def unit_lookup(tier, N, slen, tname='mjOBJ_GEOM', nbody=1):
     for k in range(slen - 1): pre.append(z3.Implies(q[k] == 0, q[k + 1] == 0))
     tval = K[tname]
     dec = lambda mdl: {'names': [bytes(W.evalnum(mdl, c) for c in nm[:-1]).split(b'\0')[0].decode('latin1') for nm in names], 'query': bytes(W.evalnum(mdl, c) for c in q[:-1]).split(b'\0')[0].decode('latin1')}
-    stubs = {'strncmp': stub_strncmp}
+    stubs = {}
     # ---- name2id on an arbitrary query
     ex = llsym.Exec(mod(), loop_bound=tsize + slen + 4, stubs=stubs)
     st = w.to_state(ex); st.pc += pre; st.aux['strcap'] = slen + 1
